@@ -116,7 +116,11 @@ for _sfx in ("", "_async"):
             def rb(eng, st, a, k):
                 maps = st.deref(st.deref(scope).fields["_maps"]).items
                 st.log.append(("block-rendered", depth(st), maps[0]))
-                return [(st, VInt(z3.IntVal(0)))]
+                # the block returns, or exits by break/continue (inside a for loop) or a Liquid error
+                outs = [(st.fork(), VInt(z3.IntVal(0)))]
+                for cls in ("BreakLoop", "ContinueLoop", "LiquidSyntaxError"):
+                    outs.append((st.fork(), Raised(VExc(cls, (const(cls),)))))
+                return outs
             c.summary("liquid.expression:Expression.evaluate" + sfx, ev)
             c.summary("liquid.ast:BlockNode.render" + sfx, rb)
             c.summary("liquid.ast:Node.render" + sfx, rb)
@@ -135,7 +139,8 @@ for _sfx in ("", "_async"):
                 return z3.And(*[box(v) == vals[1].t for _s, v in got if not isinstance(v, Raised)]) if got else z3.BoolVal(False)
             c.ensures("the-block-renders-with-exactly-one-more-namespace-holding-the-arguments", bound)
             c.ensures("the-namespace-is-removed-afterwards", lambda r: z3.BoolVal(r.st.deref(r.st.deref(scope).fields["_maps"]).items == maps0))
-            c.raises("ContextDepthError")
+            c.raises("ContextDepthError", "BreakLoop", "ContinueLoop", "LiquidSyntaxError")
+            c.ensures_exc("the-namespace-is-removed-also-when-the-block-exits-by-an-exception", lambda r: z3.BoolVal(r.st.deref(r.st.deref(scope).fields["_maps"]).items == maps0))
             c.replay("code", code=REPLAY_WITH)
     _mkw(_sfx)
 
@@ -145,9 +150,25 @@ def run(m):
     from liquid import Environment
     t = Environment(extra=True).from_string("{% assign a = 1 %}{% assign b = 2 %}{% with a: b, b: a %}{{ a }},{{ b }}{% endwith %}|{{ a }},{{ b }}")
     out = [t.render(), asyncio.run(t.render_async())]
-    return {"violated": out != ["2,1|1,2", "2,1|1,2"], "observed": out}
+    t2 = Environment(extra=True).from_string("{% for i in (1..2) %}{% with w: i %}{% if i == 1 %}{% continue %}{% endif %}{{ w }}{% endwith %}{% endfor %}|{{ w }}|{{ i }}")
+    out2 = [t2.render(), asyncio.run(t2.render_async())]
+    return {"violated": out != ["2,1|1,2", "2,1|1,2"] or out2 != ["2||", "2||"], "observed": out + out2}
 '''
 
+
+# the scope chain lookup that makes with/macro arguments shadow outer names (also for nil values)
+for _n in (2, 3):
+    chain_getitem_contract("C27", _n, lambda: REPLAY_SHADOW)
+
+REPLAY_SHADOW = r'''
+def run(m):
+    import asyncio
+    from liquid import Environment
+    env = Environment(extra=True)
+    t = env.from_string("{% assign x = 'outer' %}{% with x: nil %}[{{ x }}]{% endwith %}{% macro f a %}({{ a }}){% endmacro %}{% call f nil %}", globals={"a": "global"})
+    out = [t.render(), asyncio.run(t.render_async())]
+    return {"violated": out != ["[]()", "[]()"], "observed": out, "witness": "nil-binding-shadows"}
+'''
 
 not_covered("C27", "Parameter.parse / parse_arguments (token level)", "signatures beyond 3 parameters / 4 positional / 3 keyword arguments (macro_args is verified per arity; each arity with arbitrary names and values)")
 
